@@ -106,7 +106,7 @@ def get_ABk_symmetric_extension_ree(rho, dim, kext, use_ppt=False, use_boson=Fal
 
     cvxP_list = [cvxpy.Variable((x*dimA,x*dimA), hermitian=True) for x in dim_coeffB_list]
     index0213_list = [get_cvxpy_transpose0213_indexing(dimA,x) for x in dim_coeffB_list]
-    index0213_ab = get_cvxpy_transpose0213_indexing(dimA,dimB)
+    index0213_ab = get_cvxpy_transpose0213_indexing(dimA,dimA,dimB,dimB)
     # TODO replace indexing-matmul with indexing-sum
     cvx_rdm_list = []
     #TODO trace(cvx_rdm) is not correct
